@@ -52,6 +52,9 @@ type asmSummary struct {
 	otherStores []string // stores to memory other than the result slot
 	signedCmp   []string // signed ordered compares whose operands are not both biased
 	roles       []string // ordered compares with swapped operand roles
+	fillCmp     []string // a lane index compared with the fill count so that lane == count passes for occupied
+	fillCmpSeen int      // comparisons of a lane index with the fill count
+	eqSearch    bool     // the routine compares lanes for equality (a search, not an insert position)
 	unknown     []string // unknown mnemonics (fail closed)
 	frame       []string // frame-offset mismatches
 	params      map[string]int
@@ -152,6 +155,12 @@ func asmLoc(op string) (loc string, isMem bool, isImm bool) {
 }
 
 // analyseAsm computes the dependence summary of one routine.
+// fillCompare: a CMP of a lane index with the fill count, waiting for its conditional jump.
+type fillCompare struct {
+	idxFirst bool
+	insn     asmInsn
+}
+
 func analyseAsm(f *asmFunc, arch string, wantOffsets map[string]int) *asmSummary {
 	s := &asmSummary{name: f.name, arch: arch, retDeps: depset{}, params: wantOffsets}
 	deps := map[string]depset{}
@@ -223,6 +232,7 @@ func analyseAsm(f *asmFunc, arch string, wantOffsets map[string]int) *asmSummary
 			}
 		}
 	}
+	var lastCmp *fillCompare
 	for _, in := range f.insns {
 		ops := in.ops
 		last := ""
@@ -290,6 +300,7 @@ func analyseAsm(f *asmFunc, arch string, wantOffsets map[string]int) *asmSummary
 				delete(biased, dstLoc)
 			}
 		case "PCMPEQB":
+			s.eqSearch = true
 			set(last, union(ops...), in)
 			delete(imm, dstLoc)
 		case "PCMPGTB":
@@ -308,8 +319,36 @@ func analyseAsm(f *asmFunc, arch string, wantOffsets map[string]int) *asmSummary
 			delete(imm, dstLoc)
 		case "CMPW", "CMPQ", "CMPL", "CMPB", "TESTW", "TESTQ":
 			deps["flags"] = union(ops...)
-		case "JEQ", "JNE", "JZ", "JNZ", "JLT", "JGE", "JHI", "JLS":
+			lastCmp = nil
+			if strings.HasPrefix(in.mn, "CMP") && len(ops) == 2 {
+				// a lane index (derived from the keys) against the fill count
+				da, db := get(ops[0]), get(ops[1])
+				onlyLen := func(d depset) bool { return len(d) == 1 && d["childrenLen"] }
+				switch {
+				case da["keys"] && onlyLen(db):
+					lastCmp = &fillCompare{idxFirst: true, insn: in}
+				case db["keys"] && onlyLen(da):
+					lastCmp = &fillCompare{idxFirst: false, insn: in}
+				}
+			}
+		case "JEQ", "JNE", "JZ", "JNZ", "JLT", "JGE", "JHI", "JLS", "JCC", "JCS", "JAE", "JHS", "JLO", "JB", "JBE", "JA", "JGT", "JLE":
 			ctrl.add(deps["flags"])
+			if lastCmp != nil {
+				s.fillCmpSeen++
+				// occupied lanes are 0 … count-1: the test has to separate index < count from
+				// index >= count; one that separates index <= count from index > count takes the
+				// first unoccupied lane for an occupied one
+				var good map[string]bool
+				if lastCmp.idxFirst { // CMP index, count: flags of index - count
+					good = map[string]bool{"JCS": true, "JLO": true, "JB": true, "JCC": true, "JHS": true, "JAE": true, "JLT": true, "JGE": true}
+				} else { // CMP count, index
+					good = map[string]bool{"JHI": true, "JA": true, "JLS": true, "JBE": true, "JGT": true, "JLE": true}
+				}
+				if !good[in.mn] {
+					s.fillCmp = append(s.fillCmp, fmt.Sprintf("%s:%d %s after %s: the lane index is tested against the fill count so that index == count does not count as beyond the occupied lanes (occupied are 0 … count-1): the byte left in the first unoccupied lane – 0x00 in a fresh node, the byte of a removed child after a delete – is found", f.file, in.line, in.raw, lastCmp.insn.raw))
+				}
+				lastCmp = nil
+			}
 		case "CBNZ", "CBZ":
 			ctrl.add(get(ops[0]))
 		case "JMP", "B":
@@ -645,6 +684,13 @@ func ruleR20(c *Ctx) {
 				c.r.bad("R20", key+" compares keys > probe", pos, strings.Join(s.roles, "; "), props...)
 			} else {
 				c.r.ok("R20", key+" compares keys > probe", pos, "operand roles of every ordered compare: keys in the destination, probe in the source (or no ordered compare)", props...)
+			}
+			if s.eqSearch && s.fillCmpSeen > 0 {
+				if len(s.fillCmp) > 0 {
+					c.r.bad("R20", key+" takes lane == fill count for unoccupied", pos, strings.Join(s.fillCmp, "; "), props...)
+				} else {
+					c.r.ok("R20", key+" takes lane == fill count for unoccupied", pos, fmt.Sprintf("%d comparison(s) of a lane index with the fill count separate index < count from index >= count", s.fillCmpSeen), props...)
+				}
 			}
 			if len(s.frame) > 0 {
 				c.r.bad("R20", key+" frame offsets match the Go prototype", pos, strings.Join(s.frame, "; "), props...)
